@@ -41,7 +41,10 @@ def main():
             replay_cmd_template='./check %s --replay {path}' % pid,
             engine='vf',
             level_claimed=dict(category=m.get('LEVEL', 'exploration'),
-                               text=m.get('LEVEL_TEXT', m.get('RULE', '')),
+                               text=('Runtime monitoring: the real lomond code is executed on every enumerated / generated / '
+                                     'fault-injected case and a deterministic oracle independent of lomond judges each execution. The '
+                                     'verdict covers the executions produced (counts, classes and enumerated sub-spaces are in the evidence '
+                                     'file), not all possible executions. ' + m.get('LEVEL_TEXT', m.get('RULE', ''))),
                                design_ref='DESIGN.md section 4, %s' % pid),
             level_note='; '.join(m.get('ASSUMPTIONS', [])),
             technique=m.get('TECHNIQUE', 'runtime monitoring: reference-model oracle over executions of the '
